@@ -95,6 +95,17 @@ def directed_histories():
             NH("local mode: sibling directories", [R({"local": "apps/a1"}), R({"local": "apps/a2"}), R({"local": "apps/a1"})]),
             NH("local mode: root, then nested, then global", [R({"local": "."}), R({"local": "apps/a2"}), R({}), R({"local": "apps/a2"})]),
             NH("local mode: nested directory with a builder selection after its parent", [R({"local": "apps"}), R({"local": "apps/a1", "builders": ["b1"]})])]
+    # a project whose ninja file is larger than the writer's buffer (8 KiB): a run killed while writing has part of
+    # its output on disk already; whatever file that is, a later, much shorter generation must not inherit its tail
+    wmods = [{"name": "w%d" % i, "sources": ["w%d_%d.c" % (i, j) for j in range(4)]} for i in range(6)]
+    wapps = [{"name": "wa%02d" % i, "sources": ["wa%02d.c" % i], "selects": ["w%d" % (i % 6), "w%d" % ((i + 1) % 6)]} for i in range(16)]
+    wf = directed.base(wmods, wapps, builders=[{"name": "b0"}, {"name": "b1", "env": {"X": "bx"}}, {"name": "b2", "env": {"X": "b2"}}])
+    wvs = {"laze-project.yml": [wf["laze-project.yml"]]}
+    for k in (4, 5, 6):
+        out.append(("wide project: killed at %s, then a narrow run" % hist.FAULTS[k],
+                    dict(versions=wvs, tree0=t1, ops=[R({}, stop=k), R({"builders": ["b1"], "apps": ["wa03"]}), R({"builders": ["b1"], "apps": ["wa03"]})])))
+        out.append(("wide project: complete, killed at %s, narrow run with another -D" % hist.FAULTS[k],
+                    dict(versions=wvs, tree0=t1, ops=[R({}), R({"define": ["CFLAGS+=-Dx"]}, stop=k), R({"builders": ["b0"], "apps": ["wa00"], "define": ["CFLAGS+=-Dy"]})])))
     for k in sorted(hist.FAULTS):
         out.append(H("killed at %s, then the old arguments" % hist.FAULTS[k], [R(b0), R({"builders": ["b1"]}, stop=k), R(b0)]))
         out.append(H("killed at %s, then the same arguments" % hist.FAULTS[k], [R(b0), R({"builders": ["b1"]}, stop=k), R({"builders": ["b1"]})]))
